@@ -1141,6 +1141,14 @@ func (g *Gen) Program(minStmts, maxStmts int) *ast.Root {
 		root.Stmts = g.DeepStatements()
 		return root
 	}
+	if !g.O.NoDeep && g.chance(1, 40, "wideprogram") {
+		g.feat("wide-program")
+		root.Stmts = []ast.Vertex{g.WideStatement()}
+		if g.flip("secondwide") {
+			root.Stmts = append(root.Stmts, g.WideStatement())
+		}
+		return root
+	}
 	switch g.intn(6, "nsmode") {
 	case 0:
 		// semicolon-style namespaces
